@@ -410,12 +410,126 @@ def translate_resolve_binary_name(src):
             f"def resolveBinaryNameT ({' '.join(args)} : Option String) : Option String :=\n" + blk(f.body))
 
 
+class _HashCallToVar(ast.NodeTransformer):
+    """`self._hash_element(x)` / `Vector._hash_element(x)` -> `x`: the element hashes are the oracle inputs"""
+    def visit_Call(self, node):
+        self.generic_visit(node)
+        if isinstance(node.func, ast.Attribute) and node.func.attr == "_hash_element" and len(node.args) == 1 \
+                and isinstance(node.args[0], ast.Name):
+            return node.args[0]
+        return node
+
+
+def _rolling_loop(stmts, name, doc, consts):
+    """[init assigns…, For var in <seq>: assigns…, Return acc] -> Lean fold.  `consts` are names bound outside (P, B)."""
+    stmts = [s for s in stmts if not is_noise(s)]
+    inits, loop, ret = [], None, None
+    for s in stmts:
+        if isinstance(s, ast.Assign) and loop is None:
+            inits.append(s)
+        elif isinstance(s, ast.For) and loop is None:
+            loop = s
+        elif isinstance(s, ast.Return) and loop is not None and ret is None:
+            ret = s
+        else:
+            raise TranslateError(f"{name}: unexpected statement {type(s).__name__}")
+    if loop is None or ret is None or not isinstance(ret.value, ast.Name) or not isinstance(loop.target, ast.Name) or loop.orelse:
+        raise TranslateError(f"{name}: not init/for/return")
+    acc = ret.value.id
+    init = None
+    for s in inits:
+        t = s.targets[0]
+        if isinstance(t, ast.Name) and t.id == acc:
+            init = expr(s.value, Ctx())
+        elif isinstance(t, ast.Name) and t.id in consts:
+            pass                                    # P = self._FP_P / B = self._FP_B: parameters of the translation
+        else:
+            raise TranslateError(f"{name}: unexpected initialisation")
+    if init is None:
+        raise TranslateError(f"{name}: accumulator not initialised")
+    v = loop.target.id
+    lines = []
+    for s in loop.body:
+        if is_noise(s):
+            continue
+        if not (isinstance(s, ast.Assign) and len(s.targets) == 1 and isinstance(s.targets[0], ast.Name)):
+            raise TranslateError(f"{name}: loop body statement {type(s).__name__}")
+        val = _HashCallToVar().visit(s.value)
+        lines.append(f"  let {s.targets[0].id} : Int := {expr(val, Ctx())}")
+    cs = " ".join(consts)
+    return (f"/-- translated from the loop body of {doc} (the element hash `_hash_element({v})` is the input `{v}`) -/\n"
+            f"def {name}StepT ({cs} : Int) ({acc} : Int) ({v} : Int) : Int :=\n" + "\n".join(lines) + f"\n  {acc}\n\n"
+            f"/-- translated from {doc}: initial value, loop, return -/\n"
+            f"def {name}T ({cs} : Int) (xs : List Int) : Int :=\n  xs.foldl ({name}StepT {cs}) {init}")
+
+
+def translate_fingerprint(vsrc, tsrc):
+    vt, tt = ast.parse(vsrc), ast.parse(tsrc)
+    out = []
+    f = find_func(vt, "_compute_fingerprint_full", "Vector")
+    out.append(_rolling_loop(f.body, "computeFingerprintFull", "`Vector._compute_fingerprint_full`", ["P", "B"]))
+    # the list/tuple branch of _hash_element
+    he = find_func(vt, "_hash_element", "Vector")
+    branch = None
+    for s in he.body:
+        if isinstance(s, ast.If) and "isinstance(x,(list,tuple))" == ast.unparse(s.test).replace(" ", ""):
+            branch = s
+    if branch is None:
+        raise TranslateError("_hash_element: no list/tuple branch")
+    out.append(_rolling_loop(branch.body, "hashSequence", "the list/tuple branch of `Vector._hash_element`", ["P", "B"]))
+    # Vector.fingerprint: memo logic.  `self._fp` is the state, `self._compute_fingerprint_full()` the parameter `compute`
+    vf = find_func(vt, "fingerprint", "Vector")
+    body = [s for s in vf.body if not is_noise(s)]
+    if not (len(body) == 2 and isinstance(body[0], ast.If) and ast.unparse(body[0].test) == "self._fp is None"
+            and not body[0].orelse and isinstance(body[1], ast.Return) and ast.unparse(body[1].value) == "self._fp"):
+        raise TranslateError("Vector.fingerprint: unexpected shape")
+    assigns = []
+    def walk(stmts):
+        for s in stmts:
+            if isinstance(s, ast.If):
+                # nested `if` may only prepare the power table
+                if "_fp =" in ast.unparse(s).replace("self._fp_powers", ""):
+                    raise TranslateError("Vector.fingerprint: conditional memo assignment")
+                continue
+            if isinstance(s, ast.Assign) and ast.unparse(s.targets[0]) == "self._fp":
+                assigns.append(ast.unparse(s.value))
+            elif isinstance(s, ast.Expr) and "_fp_powers" in ast.unparse(s) or is_noise(s):
+                continue
+            elif isinstance(s, ast.Expr) and ast.unparse(s).startswith("self._ensure_fp_powers"):
+                continue
+            else:
+                raise TranslateError("Vector.fingerprint: statement " + ast.unparse(s)[:60])
+    walk(body[0].body)
+    if assigns != ["self._compute_fingerprint_full()"]:
+        raise TranslateError("Vector.fingerprint: memo is not assigned the full computation")
+    out.append("/-- translated from `Vector.fingerprint`: `fp` is `self._fp` on entry, `compute` the value of\n"
+               "    `self._compute_fingerprint_full()`; returns (returned value, `self._fp` on exit) -/\n"
+               "def vectorFingerprintT (compute : Int) (fp : Option Int) : Option Int × Option Int :=\n"
+               "  let fp : Option Int := if (fp).isNone then some compute else fp\n"
+               "  (fp, fp)")
+    inv = find_func(vt, "_invalidate_fp", "Vector")
+    ib = [s for s in inv.body if not is_noise(s)]
+    if not (len(ib) == 1 and isinstance(ib[0], ast.Assign) and ast.unparse(ib[0]) == "self._fp = None"):
+        raise TranslateError("_invalidate_fp: unexpected shape")
+    tf = find_func(tt, "fingerprint", "Table")
+    tb = [ast.unparse(s) for s in tf.body if not (isinstance(s, ast.Expr) and isinstance(s.value, ast.Constant))]
+    if tb != ["self._invalidate_fp()", "return super().fingerprint()"]:
+        raise TranslateError("Table.fingerprint: unexpected shape")
+    out.append("/-- translated from `Table.fingerprint` (`self._invalidate_fp()` is `self._fp = None`; then `Vector.fingerprint`) -/\n"
+               "def tableFingerprintT (compute : Int) (fp : Option Int) : Option Int × Option Int :=\n"
+               "  let fp : Option Int := none\n"
+               "  vectorFingerprintT compute fp")
+    return out
+
+
 def generate(src_dir):
     """-> (lean text, list of (item, error))"""
     parts, errors = [], []
     items = [("typing", lambda: translate_typing(open(os.path.join(src_dir, "typing.py")).read())),
              ("slice_length", lambda: [translate_slice_length(open(os.path.join(src_dir, "typeutils.py")).read())]),
-             ("resolve_binary_name", lambda: [translate_resolve_binary_name(open(os.path.join(src_dir, "table.py")).read())])]
+             ("resolve_binary_name", lambda: [translate_resolve_binary_name(open(os.path.join(src_dir, "table.py")).read())]),
+             ("fingerprint", lambda: translate_fingerprint(open(os.path.join(src_dir, "vector.py")).read(),
+                                                           open(os.path.join(src_dir, "table.py")).read()))]
     for name, fn in items:
         try:
             parts += fn()
